@@ -27,8 +27,9 @@ RULE = (
     'subset of ROW, COL, LAY, TSTEP (boundary files: LAY, TSTEP) in permuted '
     'keyword order, each an int in [-n, n-1] (passed as Python int, '
     'np.int64, np.int32 or np.intp, any mix over the dimensions) or a slice with step None/1 '
-    'selecting >= 1 element with start/stop spelled as None, non-negative or '
-    'negative.  Oracle (all exact, no tolerance): XORIG\' == XORIG + i0*XCELL '
+    'selecting >= 1 element with start/stop spelled as None, non-negative, '
+    'negative or - at an edge - beyond the axis (start < -n, stop > n: '
+    'clamped by slice semantics).  Oracle (all exact, no tolerance): XORIG\' == XORIG + i0*XCELL '
     'and YORIG\' == YORIG + j0*YCELL with the source values read before the '
     'call, XCELL/YCELL unchanged, origins untouched when ROW/COL are not '
     'windowed; VGLVLS\' == VGLVLS[k0:k1+2] bit for bit (untouched when LAY is '
@@ -135,7 +136,8 @@ EXHAUSTIVE_NOTE = (
     'in the states var-added(create), var-added(copy), no-tflag, every pair '
     'containing TSTEP in state no-tflag (quick), every pair in all three '
     'states (thorough); every ROW x COL pair of integers passed as numpy '
-    'integer scalars (3 type pairings)')
+    'integer scalars (3 type pairings); single windows with bounds beyond '
+    'the axis on every dimension')
 
 
 def _all_windows(n):
@@ -258,6 +260,9 @@ def _check(case, fs, m, f, r):
             if (val[0] is not None and val[0] < 0) or \
                     (val[1] is not None and val[1] < 0):
                 r.label('neg-slice-bound')
+            if (val[0] is not None and val[0] < -n) or \
+                    (val[1] is not None and val[1] > n):
+                r.label('oob-slice-bound', 'oob-slice-bound:' + d)
         if cnt < n and (i0 == 0 or i1 == n - 1):
             r.label('touches-edge')
             nt = True
